@@ -11,6 +11,7 @@ NODE: ('lab', k) the Label parameter k of the function, ('attacker', NODE), ('un
 Function summaries are instantiated along the call chain from each encoder entry point, replacing
 parameters by the actual arguments (function items, closures, integer expressions, labels).
 """
+import re
 from .core import callee_of, callee_decl, callee_matches, callee_name, strip_generics, op_place, op_const, origins, data_deps, place_fields
 from .flow import conditions
 from . import tags
@@ -224,8 +225,8 @@ def var_of_int(cx, body, op, depth=0):
             elif d in ("core::option::Option::unwrap", "core::option::Option::expect", "core::option::Option::take", "core::mem::replace", "core::mem::take"):
                 # `table[id].take().unwrap()`: the entry read while it is cleared is still that entry
                 out += var_of_int(cx, body, args[0], depth + 1)
-            elif d in ("core::ops::index::Index::index", "core::ops::index::IndexMut::index_mut"):
-                # table[id] : a per-argument table of variables (dynamic encoders)
+            elif d in ("core::ops::index::Index::index", "core::ops::index::IndexMut::index_mut") or re.search(r"^core::slice::<impl \[T\]>::get(_mut)?$|^core::slice::get(_mut)?$", d):
+                # table[id] / table.get_mut(id) : a per-argument table of variables (dynamic encoders)
                 tbl = _table_key(cx, body, args[0])
                 out.append(("+", ("table", tbl), node_of_id(cx, body, args[1])))
             else:
@@ -244,6 +245,8 @@ def var_of_int(cx, body, op, depth=0):
                     out.append(("+", ("unk", "call " + d), ("unk",)))
         elif o.kind == "param":
             out.append(("+", ("ivar", ("param", o.data)), ("unk",)))
+        elif o.kind == "agg" and o.data.get("variant") == "None" and o.fields:
+            continue  # the payload of a `Some` is read: a `None` built on another path supplies no value
         elif o.kind == "upvar":
             par, cop = tags._closure_capture_operand(cx.prog, body, o.data)
             if cop is not None:
